@@ -38,6 +38,7 @@ type evalCtx struct {
 	created  bool   // Create had returned
 	corrupt  bool   // corruption mode: errors are acceptable, lo = 0
 	scratch  string // directory to materialize into
+	disk     *diskCache
 	classes  map[string]int
 	evals    int
 	noCont   bool
@@ -190,9 +191,11 @@ func (c *evalCtx) openWrite(walDir string, ws walpb.Snapshot, tag string) (w *wa
 			if ww != nil {
 				callSafe(func() { ww.Close() })
 			}
+			c.disk.dirtyWal = true
 			return nil, r, repaired, &finding{Kind: "panic", Cmd: cmd, Func: fn, Detail: "panic: " + msg}
 		}
 		if r.err == nil || r.err == wal.ErrSnapshotNotFound {
+			c.disk.dirtyWal = true
 			return ww, r, repaired, nil
 		}
 		if ww != nil {
@@ -205,6 +208,7 @@ func (c *evalCtx) openWrite(walDir string, ws walpb.Snapshot, tag string) (w *wa
 			return nil, r, repaired, nil
 		}
 		ok := false
+		c.disk.dirtyWal = true
 		p, msg, fn = callSafe(func() { ok = wal.Repair(nop, walDir) })
 		if p {
 			return nil, r, repaired, &finding{Kind: "panic", Cmd: "Repair", Func: fn, Detail: "panic: " + msg}
@@ -250,7 +254,10 @@ func (c *evalCtx) evalImage(files map[string][]byte) []finding {
 		}
 		return out
 	}
-	if err := materialize(dir, files); err != nil {
+	if c.disk == nil {
+		c.disk = diskCacheFor(dir)
+	}
+	if err := c.disk.materialize(files); err != nil {
 		panic(err)
 	}
 
@@ -381,7 +388,7 @@ func (c *evalCtx) evalImage(files map[string][]byte) []finding {
 				} else if f := c.checkRead("Open+ReadAll(zero)", tag, r, 0, 0); f != nil {
 					w.Close()
 					add(f)
-				} else if c.noCont {
+				} else if c.noCont || (c.corrupt && r.meta == nil) {
 					w.Close()
 				} else {
 					announce("continue")
@@ -392,7 +399,7 @@ func (c *evalCtx) evalImage(files map[string][]byte) []finding {
 	}
 
 	// ---- snapshot directory + the restart sequence of raftexample -----------------------
-	if err := materialize(dir, files); err != nil {
+	if err := c.disk.materialize(files); err != nil {
 		panic(err)
 	}
 	announce("Snapshotter.Load")
@@ -409,7 +416,8 @@ func (c *evalCtx) evalImage(files map[string][]byte) []finding {
 		}
 	}
 	if walSnaps != nil {
-		if err := materialize(dir, files); err != nil {
+		c.disk.snapDirChanged()
+		if err := c.disk.materialize(files); err != nil {
 			panic(err)
 		}
 		announce("LoadNewestAvailable")
@@ -448,7 +456,7 @@ func (c *evalCtx) evalImage(files map[string][]byte) []finding {
 					} else if f := c.checkRead("Open+ReadAll(snap)", tag, r, ws.Index, seg); f != nil {
 						w.Close()
 						add(f)
-					} else if c.noCont {
+					} else if c.noCont || (c.corrupt && r.meta == nil) {
 						w.Close()
 					} else {
 						announce("continue(snap)")
@@ -458,7 +466,19 @@ func (c *evalCtx) evalImage(files map[string][]byte) []finding {
 			}
 		}
 	}
+	c.disk.snapDirChanged()
 	return out
+}
+
+var diskCaches = map[string]*diskCache{}
+
+func diskCacheFor(dir string) *diskCache {
+	if d, ok := diskCaches[dir]; ok {
+		return d
+	}
+	d := &diskCache{dir: dir}
+	diskCaches[dir] = d
+	return d
 }
 
 func (c *evalCtx) walSnapIfListed(list []walpb.Snapshot) uint64 {
